@@ -154,8 +154,8 @@ class MetaData:
         metadata = self._read()
         metadata.update(*arg, **kwargs)
 
-        write_jsonfile(self.path, data=metadata, sort_keys=True,
-                       ensure_ascii=True, overwrite=True)
-        if metadata:
+        if metadata:  # no metadata means no file, not an empty one
+            write_jsonfile(self.path, data=metadata, sort_keys=True,
+                           ensure_ascii=True, overwrite=True)
             self._callatfilecreationordeletion()
 
